@@ -1628,6 +1628,12 @@ func runScenario(seed int64, n int, out *bufio.Writer, kind string, suffix strin
 		h.randomSteps(20, 0)
 		h.nbSet([]op{{target: t, path: fam[2], val: fmt.Sprintf("v%d", r.Intn(1000))}}, false, false)
 		h.settle(40, 0)
+		if r.Intn(2) == 0 {
+			// the first request of the re-push is answered PermissionDenied (the device has seen a higher election id for
+			// a moment): the re-synchronisation is not complete, the target must not be reported synchronized
+			h.policy[t] = append(h.policy[t], codes.PermissionDenied)
+			h.emit("(devpolicy)", fmt.Sprintf("%s:PermissionDenied:1", tnum(t)))
+		}
 		h.connUp(t)
 		h.settle(60, 0)
 		for _, c := range h.connsOf(t) {
